@@ -19,20 +19,21 @@ func f64bits(f float64) uint64 { return math.Float64bits(f) }
 
 // Config bounds an exploration.
 type Config struct {
-	MaxSteps  int
-	MaxDepth  int
-	MaxUnwind int
-	MaxEnum   int
-	MaxPaths  int
-	Workers   int
-	Solver    string
-	TimeoutMs int
-	ModPath   string // module path of the code under test
+	MaxSteps   int
+	MaxDepth   int
+	MaxUnwind  int
+	MaxEnum    int
+	MaxPaths   int
+	Workers    int
+	Solver     string
+	TimeoutMs  int
+	ModPath    string // module path of the code under test
+	MaxSeconds int    // wall-clock budget for the exploration
 }
 
 func DefaultConfig() Config {
 	return Config{MaxSteps: 2_000_000, MaxDepth: 200, MaxUnwind: 64, MaxEnum: 8, MaxPaths: 2_000_000, Workers: 16,
-		Solver: "z3-new", TimeoutMs: 20000, ModPath: "github.com/trustbloc/sidetree-core-go"}
+		Solver: "z3-new", TimeoutMs: 20000, MaxSeconds: 900, ModPath: "github.com/trustbloc/sidetree-core-go"}
 }
 
 // Violation is a counterexample to an obligation.
@@ -102,6 +103,7 @@ type Engine struct {
 	pathsRun         int
 	curItem          map[*Interp]*ssa.Function
 	errLines         []string
+	forks            map[string]int
 	errT             types.Type
 	WantCoverWitness bool
 	Bounds           map[string]map[string]int
@@ -129,6 +131,36 @@ func (e *Engine) pushFor(h *ssa.Function, prefix []int) {
 	e.stack = append(e.stack, workItem{h, prefix})
 	e.mu.Unlock()
 	e.cond.Signal()
+}
+
+func (e *Engine) noteFork(where string) {
+	e.mu.Lock()
+	if e.forks == nil {
+		e.forks = map[string]int{}
+	}
+	e.forks[where]++
+	e.mu.Unlock()
+}
+
+// ForkSites returns the source locations where paths forked, most frequent first.
+func (e *Engine) ForkSites(n int) []string {
+	type kv struct {
+		k string
+		v int
+	}
+	var l []kv
+	for k, v := range e.forks {
+		l = append(l, kv{k, v})
+	}
+	sort.Slice(l, func(i, j int) bool { return l[i].v > l[j].v })
+	var out []string
+	for i, x := range l {
+		if i >= n {
+			break
+		}
+		out = append(out, fmt.Sprintf("%6d %s", x.v, x.k))
+	}
+	return out
 }
 
 func (e *Engine) countQuery() {
@@ -185,6 +217,39 @@ func (e *Engine) Run(harnesses []*ssa.Function) {
 		e.stack = append(e.stack, workItem{h, nil})
 	}
 	var wg sync.WaitGroup
+	done := make(chan struct{})
+	go func() {
+		t0 := time.Now()
+		tick := time.NewTicker(5 * time.Second)
+		defer tick.Stop()
+		for {
+			select {
+			case <-done:
+				return
+			case <-tick.C:
+				e.mu.Lock()
+				if os.Getenv("SYMGO_PROGRESS") != "" {
+					fmt.Fprintf(os.Stderr, "[%4.0fs] paths=%d queued=%d active=%d queries=%d\n", time.Since(t0).Seconds(), e.pathsRun, len(e.stack), e.active, e.queries)
+				}
+				if int(time.Since(t0).Seconds()) > e.Cfg.MaxSeconds && !e.stop {
+					e.stop = true
+					for _, it := range e.stack {
+						e.res(it.h.Name()).Aborts[fmt.Sprintf("time budget %ds exhausted with paths still queued", e.Cfg.MaxSeconds)]++
+						break
+					}
+					if len(e.stack) == 0 {
+						for _, r := range e.results {
+							r.Aborts[fmt.Sprintf("time budget %ds exhausted", e.Cfg.MaxSeconds)]++
+							break
+						}
+					}
+					e.cond.Broadcast()
+				}
+				e.mu.Unlock()
+			}
+		}
+	}()
+	defer close(done)
 	for w := 0; w < e.Cfg.Workers; w++ {
 		wg.Add(1)
 		go func(id int) {
